@@ -321,6 +321,9 @@ def plan(tier, seed, rng):
     else:
         small = sorted(common, key=lambda c: c.size)[:4]
         units.append(Unit("C15", offcfgs[0], small, ["props/c15.h"], max_success=ms))
+    if tier == "thorough":
+        from vf.core import thin_units
+        units = thin_units(units, seed, 0.5, 0.2)
     return units
 
 
